@@ -162,15 +162,18 @@ def _shared():
 
 
 def poison(text):
-    """Feed the shared parser and the text-level entry point a script that must be rejected (cut off in the middle of
-    an action); whatever that leaves behind must not show in later calls."""
+    """Feed the shared parser and the text-level entry point scripts that must be rejected because their LAST line is cut
+    off (no closing bracket): a one-line script cut short -- so that the parser really reaches the unfinished end --, the
+    whole script cut in the middle of an action, and a fixed one; whatever that leaves behind must not show in later calls."""
     from xmldiff import main
-    cut = text[:max(1, len(text) * 2 // 3)].rstrip("]\n ")
-    for f in (lambda: list(_shared()[1].parse(cut)), lambda: main.patch_text(cut, "<a/>"), lambda: main.patch_text("[delete, /a/b[1]", "<a/>")):
-        try:
-            f()
-        except Exception:  # noqa
-            pass
+    first = text.split("\n")[0]
+    cuts = [first.rstrip("] "), text[:max(1, len(text) * 2 // 3)].rstrip("]\n "), "[delete, /a/b[1", '[update-text, /a/b[1], "unfinished']
+    for cut in cuts:
+        for f in (lambda: list(_shared()[1].parse(cut)), lambda: main.patch_text(cut, "<a><b>t</b></a>")):
+            try:
+                f()
+            except Exception:  # noqa
+                pass
 
 
 ENTITY_DOCS = [
